@@ -41,5 +41,5 @@ FileRows(x) == [i \in DOMAIN x |-> R(x[i][1], x[i][2], x[i][3], x[i][4], x[i][5]
 FileInits == LET recs == ndJsonDeserialize(IOEnv.INIT_FILE)
              IN  { <<FileRows(recs[i].a), FileRows(recs[i].b)>> : i \in DOMAIN recs }
 SimValSeqs == [f \in {"sid", "tomo", "obj", "cls"} |->
-                 IF f = "sid" THEN { <<97>>, <<2, 1>> } ELSE { <<1>>, <<2, 3>>, <<3, 1>>, <<9>> }]
+                 IF f = "sid" THEN { <<97>>, <<2, 1>>, <<0>> } ELSE { <<1>>, <<2, 3>>, <<3, 1>>, <<9>>, <<0>>, <<1, 0>> }]
 =============================================================================
